@@ -325,6 +325,9 @@ type hydra struct {
 	// a swampot, különben képesek lennének egyszerre létrehozni, ugyanazt a swampot. Így ha az egyik summonolja a swampot,
 	// akkor meg kell várja a másik, hogy az első visszakapja azt.
 	summoningSwamps sync.Map
+	// summoningMu guards LoadOrStore/Delete of summoningSwamps together with SwampWaiter.count, so that a
+	// waiter object is removed from the map only by its last user.
+	summoningMu sync.Mutex
 
 	// interfaces
 	elysiumInterface  safeops.Safeops
@@ -393,8 +396,20 @@ func (h *hydra) SummonSwamp(ctx context.Context, islandID uint64, swampName name
 	// if the ok is true then the swamp is already summoning, so we need to wait for the other process to finish the summoning process
 	// if the ok is false then the swamp is not summoning, so we can start the summoning process and store the swamp in the map
 	// immediately
+	h.summoningMu.Lock()
 	result, _ := h.summoningSwamps.LoadOrStore(swampName.Get(), newSwampWaiter())
 	waiter, _ := result.(*SwampWaiter)
+	waiter.count++ // one per user of this waiter object, not only per waiting user
+	h.summoningMu.Unlock()
+	dropUse := func() {
+		h.summoningMu.Lock()
+		waiter.count--
+		// the last user removes the waiter object from the map
+		if waiter.count == 0 {
+			h.summoningSwamps.Delete(swampName.Get())
+		}
+		h.summoningMu.Unlock()
+	}
 	if verifhook.Enabled {
 		verifhook.Yield("hydra.summon.loaded", swampName.Get(), waiter)
 	}
@@ -407,9 +422,9 @@ func (h *hydra) SummonSwamp(ctx context.Context, islandID uint64, swampName name
 			// Ha a kontextus megszakad, jelezzük a többi várakozó goroutinnak, hogy ne várjanak tovább
 			waiter.cond.Broadcast()
 			waiter.cond.L.Unlock()
+			dropUse()
 			return nil, ctx.Err() // Visszatérünk a kontextus hibaüzenetével
 		default:
-			atomic.AddInt32(&waiter.count, 1)
 			waiter.cond.Wait()
 		}
 	}
@@ -422,12 +437,8 @@ func (h *hydra) SummonSwamp(ctx context.Context, islandID uint64, swampName name
 		waiter.ready = false
 		waiter.cond.Broadcast() // Értesítjük a többi várakozót
 		waiter.cond.L.Unlock()
-		// csökkentjük a várakozó goroutinok számát
-		atomic.AddInt32(&waiter.count, -1)
-		// ha nincs több várakozó goroutin, akkor töröljük a várakozó mapből a swampot
-		if atomic.LoadInt32(&waiter.count) == 0 {
-			h.summoningSwamps.Delete(swampName.Get())
-		}
+		// csökkentjük a használók számát; az utolsó törli a várakozó mapből a swampot
+		dropUse()
 	}()
 
 	var swampObject swamp.Swamp
